@@ -203,7 +203,7 @@ fn try_fill_step<const N: usize, const L: usize>(target: usize) {
     core::mem::forget(r);
 }
 
-// @harness props=C24,C23 tier=quick mem=4 t=1200
+// @harness props=C24,C23 tier=quick mem=4 t=900
 //   fn="Reader::try_fill,Reader::shift,Reader::buffered"
 //   bound="one try_fill(1) (what peek_octet / read_octet ask for) from every reader state over a 4-octet buffer (start <= end <= 4 symbolic, contents symbolic) and a 3-octet stream with 0..=3 octets already consumed; unwind 9"
 //   sym="buffer contents, start, end, stream contents and position"
@@ -213,7 +213,7 @@ fn c24_reader_try_fill_t1() {
     try_fill_step::<3, 4>(1);
 }
 
-// @harness props=C24,C23 tier=quick mem=4 t=1200
+// @harness props=C24,C23 tier=quick mem=4 t=900
 //   fn="Reader::try_fill,Reader::shift,Reader::buffered"
 //   bound="one try_fill(4) (the whole buffer, no growth) from every reader state over a 4-octet buffer and a 3-octet stream; unwind 9"
 //   sym="buffer contents, start, end, stream contents and position"
@@ -223,7 +223,7 @@ fn c24_reader_try_fill_t4() {
     try_fill_step::<3, 4>(4);
 }
 
-// @harness props=C24,C23 tier=quick mem=4 t=1200
+// @harness props=C24,C23 tier=quick mem=4 t=900
 //   fn="Reader::try_fill,Reader::shift,Vec::resize"
 //   bound="one try_fill(6) from every reader state over a 4-octet buffer and a 3-octet stream: the buffer must grow; unwind 9"
 //   sym="buffer contents, start, end, stream contents and position"
@@ -248,7 +248,7 @@ pub(crate) fn is_digit(b: u8) -> bool {
     b >= b'0' && b <= b'9'
 }
 
-// @harness props=C23,C24 tier=quick mem=4 t=1800 stubs="S6"
+// @harness props=C23,C24 tier=quick mem=3 t=600 stubs="S6"
 //   fn="Parser::parse_escape,Parser::parse_decimal_escape,Reader::read_octet,Reader::read"
 //   bound="the 3 octets after a backslash, all symbolic (2^24), followed by end of input: value of \\DDD and \\X escapes, the three error kinds; unwind 5"
 //   sym="data:[u8;3]"
@@ -295,7 +295,7 @@ fn c23_escape_3() {
     core::mem::forget(p);
 }
 
-// @harness props=C23,C24 tier=quick mem=4 t=1800 stubs="S6"
+// @harness props=C23,C24 tier=quick mem=3 t=600 stubs="S6"
 //   fn="Parser::parse_escape,Parser::parse_decimal_escape"
 //   bound="1 or 2 octets after a backslash (symbolic) followed by end of input, and no octet at all: EofInEscape unless the single octet is not a digit; unwind 5"
 //   sym="data:[u8;2], length in {0,1,2} (three parsers)"
